@@ -24,7 +24,8 @@ class MP:
 
     def __init__(self, oid, fn, file, via, dst, src=None, init_seq=None, bypass=(),
                  init=None, keys=(), fail=None, plain=False, why="", min_guards=1, states=None,
-                 resume=True, cut_calls=(), target=None):
+                 resume=True, cut_calls=(), target=None, cut_writes=()):
+        self.cut_writes = cut_writes
         self.states = states
         self.resume = resume
         self.cut_calls = cut_calls
@@ -305,6 +306,11 @@ def evaluate(ck, prog, rule, table, floor=None):
             for b_, i_, e_ in f.iter_elems():
                 if any(c.get("fn") in ob.cut_calls for c in ex.calls(e_, into_refs=False)):
                     cut_blocks.add(b_.id)
+        for pat in getattr(ob, "cut_writes", ()) or ():
+            for b_, i_, e_ in f.iter_elems():
+                for (l_, r_, op_, n_) in ex.writes(e_):
+                    if guard.pat_match(f, l_, "&".join("d_" + p_ for p_ in pat.split("&"))):
+                        cut_blocks.add(b_.id)
         path, hit = guard.cut_reach(m.g, src, cut, dstp, cut_blocks=cut_blocks)
         ok = path is None and not failmsg
         if path is not None:
@@ -317,7 +323,7 @@ def evaluate(ck, prog, rule, table, floor=None):
             msg = "%s: %d guard(s) [%s] cut every path to %s" % (
                 ob.why, nvia, "; ".join("%d:`%s`" % (x.line, x.text[:70]) for x in found[:3]),
                 _dst_text(ob.dst))
-        ck.ob(rule, ob.oid, ok, common.where(f, found[0].line), msg, key=key)
+        ck.ob(rule, ob.oid, ok, common.where(f, found[0].line) if found else common.where(f), msg, key=key)
     if floor:
         ck.floor(rule, floor)
 
